@@ -16,6 +16,8 @@ STREAM_SPECS = {
     'tiles1x2':   ({'enc_mode': 8, 'tile_columns': 1, 'tile_rows': 0, 'logical_processors': 2}, {'kind': 'moving', 'seed': 16}, 6, (256, 192)),   # more tile columns than rows
     'tiles2x1':   ({'enc_mode': 8, 'tile_columns': 0, 'tile_rows': 1, 'logical_processors': 2}, {'kind': 'moving', 'seed': 17}, 6, (192, 256)),   # more tile rows than columns
     'tiles1x4':   ({'enc_mode': 8, 'tile_columns': 2, 'tile_rows': 0, 'logical_processors': 2}, {'kind': 'mix', 'seed': 18}, 5, (512, 192)),
+    'tilecols_w': ({'enc_mode': 8, 'tile_columns': 1, 'tile_rows': 0, 'logical_processors': 2, 'qp': 45}, {'kind': 'moving', 'seed': 23}, 5, (640, 192)),   # two tile columns, each 5 superblocks wide, 3 superblock rows: room for the recon wavefront inside a tile
+    'tc_intra':   ({'enc_mode': 8, 'tile_columns': 1, 'tile_rows': 0, 'logical_processors': 2, 'qp': 40, 'intra_period_length': 1}, {'kind': 'moving', 'seed': 24}, 4, (640, 320)),   # every second picture intra coded: intra prediction reads the neighbouring superblocks' pixels
     'wide64':     ({'enc_mode': 8, 'logical_processors': 1}, {'kind': 'mix', 'seed': 19}, 5, (192, 64)),
     'k3w144':     ({'enc_mode': 8, 'logical_processors': 1, 'intra_period_length': 3, 'intra_refresh_type': 2}, {'kind': 'moving', 'seed': 20}, 9, (144, 64)),   # sequence header repeated at every key frame
     'ten':        ({'enc_mode': 7, 'encoder_bit_depth': 10, 'logical_processors': 1}, {'kind': 'mix', 'seed': 7}, 5, (64, 64)),
@@ -182,7 +184,7 @@ def check_c09(tier, seed):
                   'oracle: pictures byte-identical to the single-threaded result, no ASan report, no DEADLOCK/LIVELOCK, deinit + deinit_handle return with all workers joined and the allocation ledger empty; distinct = distinct (stream, threads, decision trace)')
     ck.ev.components = DEC_COMPONENTS; ck.ev.assumptions = ['instruction-level data races on volatile flags are outside the model (orderings of whole segments between scheduling points are explored)']
     variant = 'asan'; core.build(variant); core.build('plain'); rng = ck.rng
-    names = (['base8', 'tiles2x2', 'tiles1x2', 'tiles2x1', 'lr_cdef', 'mfmv_wide', 'aom_default', 'aom_tiles', 'aom_superres', 'aom_lowq', 'aom_cyclic', 'aom_grain', 'aom_alltools10'] if tier == 'quick'
+    names = (['base8', 'tiles2x2', 'tiles1x2', 'tiles2x1', 'tiles1x4', 'tilecols_w', 'tc_intra', 'lr_cdef', 'mfmv_wide', 'aom_default', 'aom_tiles', 'aom_superres', 'aom_lowq', 'aom_cyclic', 'aom_grain', 'aom_alltools10'] if tier == 'quick'
              else ['base8', 'tiles2x2', 'tiles1x2', 'tiles2x1', 'tiles1x4', 'tiles4x2', 'lr_cdef', 'mfmv_wide', 'sb128', 'grain', 'superres', 'ten', 'overlay'] + list(AOM_SPECS))
     st = make_streams(names, ck)
     fams = []
@@ -210,6 +212,33 @@ def check_c09(tier, seed):
         for c, r in zip(fam[1:], frs[1:]):
             if r.get('outcome') == 'ok' and r.get('output_hash') != b.get('output_hash'):
                 ck.add(Violation('C09', 'DIFF', 'pictures', c09_diff(b, r, c), inline_stream(c), variant, family=[inline_stream(fam[0]), inline_stream(c)]), 'diff_dec')
+    # the same families with forced preemptions *inside* the decoding of a superblock (function entries: build variant "fine"; individual loads and
+    # stores: build variant "mem"): a worker that starts a superblock before the ones it depends on are finished is only observable when another
+    # worker can be stopped in the middle of reconstructing them - at synchronisation-operation granularity a superblock is atomic
+    core.build('fine'); core.build('mem'); ffams = []
+    for nm in [n for n in ('tiles1x4', 'tc_intra', 'tilecols_w', 'tiles1x2', 'aom_tiles', 'base8', 'aom_default') if n in st]:
+        s = st[nm]; base = dec_case(s, 1, extra={'_stream': nm}); fam = [(base, 'plain')]
+        for k in range(6 if tier == 'quick' else 16):
+            th = rng.choice([2, 3, 4, 8]); fv = 'fine' if k % 2 == 0 else 'mem'
+            sim = dict(gen.schedule(rng, horizon=3000, nthreads=th + 1, allow_buggify=False), step_limit=60000000)
+            if fv == 'fine': sim['fine'] = rng.choice([300, 1500, 6000])
+            else: sim['mem'] = rng.choice([200, 1000, 5000])
+            fam.append((dec_case(s, th, sim=sim, extra={'_stream': nm}), fv))
+        ffams.append(fam)
+    flat = [cv for f in ffams for cv in f]
+    rs = pmap(lambda cv: run_case(cv[0], cv[1]), flat, variant='plain'); i = 0
+    for fam in ffams:
+        frs = rs[i:i + len(fam)]; i += len(fam); b = frs[0]
+        for (c, fv), r in zip(fam, frs):
+            ok = r.get('outcome') == 'ok' and r.get('npictures')
+            ck.ev.add_run(c, r, (c['_stream'], c['threads'], r['sim']['trace_hash'], fv) if ok else None)
+            ck.ev.fault('fine_preemption', (r.get('sim') or {}).get('fine_preemptions', 0)); ck.ev.fault('mem_preemption', (r.get('sim') or {}).get('mem_preemptions', 0))
+            for v in relabel(single_violations(c, r, fv), 'C09', ('TERM', 'CRASH')):
+                v.case = inline_stream(v.case); ck.add(v, 'single_dec')
+        if b.get('outcome') != 'ok': continue
+        for (c, fv), r in zip(fam[1:], frs[1:]):
+            if r.get('outcome') == 'ok' and r.get('output_hash') != b.get('output_hash'):
+                ck.add(Violation('C09', 'DIFF', 'pictures', c09_diff(b, r, c), inline_stream(c), fv, family=[inline_stream(fam[0][0]), inline_stream(c)]), 'diff_dec')
     rc = ck.finish(); cleanup_streams(); return rc
 
 @evaluator('ledger_dec')
@@ -567,6 +596,20 @@ def check_c15(tier, seed):
     for (wh, lp, extra) in [((64, 256), 4, {}), ((128, 128), 2, {'tile_rows': 1}), ((64, 192), 8, {}), ((192, 64), 3, {'tile_columns': 1})] + ([] if tier == 'quick' else [((rng.choice([64, 128, 192]), rng.choice([64, 128, 256])), rng.choice([2, 4, 8]), {}) for _ in range(12)]):
         c = mk(ck, dict({'logical_processors': lp, 'enc_mode': 8}, **extra), {'kind': 'mix', 'seed': rng.randint(1, 99)}, 5, wh, sim=gen.schedule(rng, allow_buggify=False), machine={'cores': lp, 'sockets': 1}, oracles={'decode': 0, 'parse': 0, 'order': 0})
         c['program'] = [copy.deepcopy(o) for _ in range(2) for o in full]; c['_gen'] = None; c['_point'] = 'after_drain'; cases.append(c)
+    # tools that allocate at run time, per picture, inside the worker kernels (intra-block-copy hash tables of screen-content key frames, palette,
+    # film-grain tables, overlays, superres buffers, TPL): whole sessions repeated 2-3 times (growth clause) and cut mid-stream
+    rt_cfgs = [({'screen_content_mode': 1, 'intra_period_length': 7, 'enc_mode': 6}, 'text', (128, 64)), ({'screen_content_mode': 1, 'intrabc_mode': 1, 'palette_level': 6, 'intra_period_length': 5, 'enc_mode': 8}, 'text', (64, 64)),
+               ({'film_grain_denoise_strength': 12}, 'grainy', (128, 128)), ({'enable_overlays': 1, 'hierarchical_levels': 3, 'recon_enabled': 0}, 'moving', (64, 64)), ({'superres_mode': 1, 'superres_denom': 12, 'enable_tpl_la': 0}, 'moving', (128, 128)),
+               ({'rate_control_mode': 2, 'intra_period_length': 15, 'recon_enabled': 0}, 'moving', (64, 64)), ({'encoder_bit_depth': 10, 'tile_columns': 1}, 'mix', (128, 128))]
+    for k, (cfgo, kind, wh) in enumerate(rt_cfgs if tier == 'quick' else rt_cfgs * 3):
+        n = 16 if cfgo.get('intra_period_length') else 10
+        recon = bool(dict(BASE_CFG, **cfgo).get('recon_enabled'))
+        fullp = gen.program(n, 'each', recon=recon)
+        c = mk(ck, dict({'logical_processors': rng.choice([1, 2, 4]), 'enc_mode': 8}, **cfgo), {'kind': kind, 'seed': rng.randint(1, 99)}, n, wh, sim=gen.schedule(rng, allow_buggify=False), oracles={'decode': 0, 'parse': 0, 'order': 0})
+        c['program'] = [copy.deepcopy(o) for _ in range(3 if k % 2 == 0 else 2) for o in fullp]; c['_gen'] = None; c['_point'] = 'after_drain'; cases.append(c)
+        if tier != 'quick' or k % 2 == 1:
+            ops = [{'op': 'init_handle'}, {'op': 'set_param'}, {'op': 'init'}] + [x for i in range(n) for x in ({'op': 'send', 'i': i}, {'op': 'get_packet', 'max': 100}, {'op': 'get_recon', 'max': 100})] + [{'op': 'yield', 'n': rng.randint(1, 2000)}, {'op': 'deinit'}, {'op': 'deinit_handle'}, {'op': 'session_end'}]
+            c2 = copy.deepcopy(c); c2['program'] = [copy.deepcopy(o) for _ in range(2) for o in ops]; c2['_point'] = 'midstream_%d_sends_100_polled' % n; cases.append(c2)
     st = make_streams(['base8', 'tiles2x2'], ck)
     for nm, s in st.items():
         for th in ([1, 4] if tier == 'quick' else [1, 2, 4, 8]):
